@@ -578,7 +578,7 @@ SPEC = Spec(
     rules=[r_nomut, r_rebuild, r_rebuild_guard, r_keys, r_tagonly, r_ident_keyed,
            r_dedup_key, r_position, r_state],
     floors={"R05-NOMUT": 300, "R05-REBUILD": 60, "R05-IDENTITY": 31,
-            "R05-REBUILD-GUARD": 8, "R05-KEYS": 10, "R05-TAGONLY": 40,
+            "R05-REBUILD-GUARD": 5, "R05-KEYS": 10, "R05-TAGONLY": 40,
             "R05-IDENT-KEYED": 2, "R05-DEDUP-KEY": 7, "R05-POSITION": 3, "R05-STATE": 8},
     explanation=(
         "R05-NOMUT: effect analysis (access-path flow) of every function and method "
